@@ -62,9 +62,12 @@ check('C09', 'model_checking',
 check('C14', 'other',
       'bounded symbolic execution of the real descriptor-id key builders (CrossHair + z3 string theory), uuid5 replaced by the identity',
       'Solver-decided injectivity of the strings hashed into descriptor ids over symbolic element names (|s| <= 2-3, all of Unicode), '
-      'sub-type ids, cardinalities and flags: equal ids imply equal descriptions, within and across the id functions. Only this last '
-      'sentence of C14 is decidable here; faithfulness of descriptors to compiled queries needs the parser.',
-      'Trusted: SHA-1/uuid5 collision freedom (stubbed by identity). Known finding F5 (":" in names) listed in known_findings.json.',
+      'sub-type ids, cardinalities and flags: equal ids imply equal descriptions, within and across the id functions. In addition every '
+      'accepted query of a compositional family goes through the real server query path; its output / input descriptors, parsed back under '
+      'protocol 1.0 / 2.0 / 3.0, state exactly the names, order, cardinalities, element types and tuple structure of the compiled result '
+      'shape and parameters, and equal ids come with identical bytes.',
+      'Trusted: SHA-1/uuid5 collision freedom (stubbed by identity in part 1). Known findings F5 (":" in names) and F20 (tuple names leak '
+      'derived view names). Arrays, ranges, enums are not in the query family.',
       'DESIGN.md section 4, C14')
 
 check('C17', 'model_checking',
